@@ -3783,7 +3783,9 @@ impl Bindgen for FunctionBindgen<'_, '_> {
                             "
                                 {option_ty} {option_ret};
                                 {option_ret}.is_some = {ret};
-                                {option_ret}.val = {val};
+                                if ({ret}) {{
+                                    {option_ret}.val = {val};
+                                }}
                             ",
                         );
                         results.push(option_ret);
@@ -3869,7 +3871,10 @@ impl Bindgen for FunctionBindgen<'_, '_> {
                 Some(Scalar::OptionBool(_)) => {
                     assert_eq!(operands.len(), 1);
                     let variant = &operands[0];
+                    // The payload is only initialized in the `some` case.
+                    uwriteln!(self.src, "if ({variant}.is_some) {{");
                     self.store_in_retptr(&format!("{variant}.val"));
+                    uwriteln!(self.src, "}}");
                     self.src.push_str("return ");
                     self.src.push_str(&variant);
                     self.src.push_str(".is_some;\n");
